@@ -312,6 +312,27 @@ func c15Eval(c *Ctx, cs Case) {
 				continue
 			}
 			result := strings.SplitN(res.Out, " ", 2)[0]
+			// correspondence with the Lean model of the streamed digest under a failing reader
+			// (Model/MultiFault.lean): same outcome class, and the same digest when there is one
+			if op == "hash-image" && dep == "reader" {
+				ki := map[string]int{"error": 0, "short": 1, "short-eof": 2, "eof0": 3}[kind]
+				m := c.Drv.Ask("pe.hashfault", cs.S("img"), "fault", fmt.Sprint(k), fmt.Sprint(ki))
+				goCls := "nil"
+				switch {
+				case result == "ok":
+					goCls = "ok " + base["digest"]
+				case strings.HasPrefix(result, "wrong-digest:"):
+					goCls = "ok " + strings.TrimPrefix(result, "wrong-digest:")
+				}
+				if m != goCls {
+					cc := Case{}
+					for kk, v := range cs {
+						cc[kk] = v
+					}
+					cc["only_k"] = int64(k)
+					c.Fail(Failure{Kind: "tie", What: fmt.Sprintf("Hash under a failing reader (read %d, %s): model and implementation disagree", k, kind), Case: cc, Model: clip(m), Go: clip(goCls)})
+				}
+			}
 			// a short count is only a fault for the call that moves data
 			if (kind == "short1" || kind == "short0") && !faultBites(c, a, k) {
 				continue
